@@ -41,7 +41,8 @@ def _slot_correspondence(prop, report, tier, cases=None):
 
 SLOT_FAMILIES = {
     "C02": ("insert_cnt", "shift_right_cnt", "shift_right1", "fill_after_shift", "erase", "insert_own"),
-    "C09": ("insert_cnt_th", "resize_grow", "assign_grow", "assign_shrink", "emplace_n_th", "emplace_grow_th", "emplace_back_grow_th", "insert_n_th", "shift_left"),
+    "C09": ("insert_cnt_th", "resize_grow", "assign_grow", "assign_shrink", "emplace_n_th", "emplace_grow_th", "emplace_back_grow_th", "insert_n_th", "shift_left",
+            "shift_right1_mt", "shift_right_cnt_mt", "shift_left_mt", "insert_n_mt", "emplace_n_mt", "erase_mt"),
     "C10": ("insert_own",),
 }
 
